@@ -29,7 +29,7 @@ def write_if_changed(path, text):
         f.write(text)
 
 
-def module_src(name, decls, std, err, qualified):
+def module_src(name, decls, std, err, qualified, attr_path=False):
     lines = []
     lines.append("use mc::log::{self, K};")
     lines.append("use microscpi::{self as scpi, Error, Interface};")
@@ -46,10 +46,11 @@ def module_src(name, decls, std, err, qualified):
     if std:
         lines.append("impl microscpi::StandardCommands for I {}")
     attrs = []
+    # the groups are requested by bare identifier or by a path to the trait
     if std:
-        attrs.append("StandardCommands")
+        attrs.append("scpi::StandardCommands" if attr_path else "StandardCommands")
     if err:
-        attrs.append("ErrorCommands")
+        attrs.append("microscpi::ErrorCommands" if attr_path else "ErrorCommands")
     lines.append("#[scpi::interface(%s)]" % ", ".join(attrs) if attrs else "#[scpi::interface]")
     lines.append("impl I {")
     # ordinary methods without #[scpi] sit between the handlers, as in real interfaces
@@ -126,7 +127,7 @@ microscpi = { path = "../../../subject/microscpi" }
         for n, a in b:
             name = "m%d" % n
             names.append(name)
-            write_if_changed(os.path.join(d, "src", name + ".rs"), module_src(name, a["decls"], a["std"], a["err"], "acc%d::%s" % (k, name)))
+            write_if_changed(os.path.join(d, "src", name + ".rs"), module_src(name, a["decls"], a["std"], a["err"], "acc%d::%s" % (k, name), a.get("attr_path", False)))
         lib = "".join("pub mod %s;\n" % n for n in names)
         lib += "pub fn entries() -> Vec<mc::prog::Entry> {\n    vec![%s]\n}\n" % ", ".join("%s::entry()" % n for n in names)
         write_if_changed(os.path.join(d, "src", "lib.rs"), lib)
@@ -151,8 +152,8 @@ microscpi = { path = "../../../subject/microscpi" }
     for n, r in enumerate(plan["reject"]):
         name = "r%d" % n
         names.append(name)
-        write_if_changed(os.path.join(d, "src", name + ".rs"), module_src(name, r["decls"], r["std"], r["err"], "rej::" + name))
-        expect.append({"name": name, "decls": r["decls"], "std": r["std"], "err": r["err"], "error": r["error"]})
+        write_if_changed(os.path.join(d, "src", name + ".rs"), module_src(name, r["decls"], r["std"], r["err"], "rej::" + name, r.get("attr_path", False)))
+        expect.append({"name": name, "decls": r["decls"], "std": r["std"], "err": r["err"], "attr_path": r.get("attr_path", False), "error": r["error"]})
     write_if_changed(os.path.join(d, "src", "lib.rs"), "".join("pub mod %s;\n" % n for n in names))
     keep = set(n + ".rs" for n in names) | {"lib.rs"}
     for f in os.listdir(os.path.join(d, "src")):
